@@ -27,11 +27,14 @@ type GovSpec struct {
 // Action is one letter of a scenario alphabet: one block (time step + transactions), or a
 // governance macro-step.
 type Action struct {
-	Name    string
-	Dt      time.Duration
-	Txs     func(m *model.State) []model.Tx
-	Gov     *GovSpec
-	Enabled func(m *model.State, aux map[string]int) bool
+	Name string
+	Dt   time.Duration
+	// NextTime, if set, gives the absolute time of the block (for jumps relative to model state,
+	// and beyond the range of time.Duration)
+	NextTime func(m *model.State) time.Time
+	Txs      func(m *model.State) []model.Tx
+	Gov      *GovSpec
+	Enabled  func(m *model.State, aux map[string]int) bool
 	// Count: aux counter incremented when the action is taken (for caps like "at most one governance change")
 	Count string
 }
@@ -65,6 +68,38 @@ type Exec struct {
 	Tracked []string
 	// Hooks for property-specific oracles
 	AfterTx func(e *Exec, obs *TxObs, pre, post map[string][]mc.KV) []Disc
+	// balances of the tracked accounts before and after the transaction being delivered
+	PreBal, PostBal map[string]map[string]*big.Int
+	// model state before the transaction
+	PreM *model.State
+	// Annotate may add discrete facts to a discrepancy (for known-finding signatures)
+	Annotate func(e *Exec, d *Disc, tx *model.Tx)
+}
+
+// ReadBalances reads the balances of all tracked accounts from the current (in-block) state.
+func (e *Exec) ReadBalances() map[string]map[string]*big.Int {
+	out := map[string]map[string]*big.Int{}
+	ctx := e.W.Ctx()
+	for _, n := range e.Tracked {
+		m := map[string]*big.Int{}
+		for _, c := range e.W.App.BankKeeper.GetAllBalances(ctx, AddrOf(e.W, n)) {
+			m[c.Denom] = c.Amount.BigInt()
+		}
+		out[n] = m
+	}
+	return out
+}
+
+// Delta returns post - pre of one account and denom around the last transaction.
+func (e *Exec) Delta(acc, denom string) *big.Int {
+	a, b := e.PreBal[acc][denom], e.PostBal[acc][denom]
+	if a == nil {
+		a = new(big.Int)
+	}
+	if b == nil {
+		b = new(big.Int)
+	}
+	return new(big.Int).Sub(b, a)
 }
 
 func (e *Exec) env() model.Env { return implEnv{e.W} }
@@ -91,10 +126,13 @@ func (e *Exec) spendables(at time.Time) map[string]sdk.Coins {
 
 // beginBlock starts a block on both sides; checks the completion rule of C05.
 func (e *Exec) beginBlock(dt time.Duration) (discs []Disc, halted bool) {
-	newT := e.W.Time.Add(dt)
+	return e.beginBlockAt(e.W.Time.Add(dt))
+}
+
+func (e *Exec) beginBlockAt(newT time.Time) (discs []Disc, halted bool) {
 	before := e.spendables(newT)
-	_, pan := e.W.BeginBlock(dt)
-	completed, _, _ := e.M.BeginBlock(newT.UnixNano())
+	_, pan := e.W.BeginBlockAt(newT)
+	completed, _, _ := e.M.BeginBlock(timeNs(newT))
 	if pan != "" {
 		return []Disc{{Kind: "panic:BeginBlock", Detail: "BeginBlock panicked: " + firstLine(pan), Sig: map[string]string{"phase": "BeginBlock", "panic": firstLine(pan)}}}, true
 	}
@@ -137,6 +175,10 @@ func (e *Exec) deliver(tx model.Tx) (TxObs, []Disc, bool) {
 	obs := TxObs{Tx: tx}
 	payer := tx.Payer()
 	pre := StoresDump(w)
+	e.PreBal = e.ReadBalances()
+	if e.AfterTx != nil || e.Annotate != nil {
+		e.PreM = m.Clone()
+	}
 	seq0 := e.seqOf(payer)
 	bz, err := w.Sign(BuildTx(w, tx))
 	if err != nil {
@@ -145,6 +187,7 @@ func (e *Exec) deliver(tx model.Tx) (TxObs, []Disc, bool) {
 	r := w.DeliverTx(bz)
 	obs.Res, obs.Code, obs.Space, obs.Log, obs.GasUsed = r, r.Code, r.Codespace, firstLine(r.Log), r.GasUsed
 	post := StoresDump(w)
+	e.PostBal = e.ReadBalances()
 	obs.AnteOK = e.seqOf(payer) != seq0
 	diverged := false
 	unlocked := new(big.Int)
@@ -200,11 +243,19 @@ func (e *Exec) deliver(tx model.Tx) (TxObs, []Disc, bool) {
 		}
 	}
 	if !diverged {
-		discs = append(discs, CompareBalances(w, m, e.Tracked)...)
-		discs = append(discs, CompareEntBooks(w, m, e.Tracked)...)
+		bd := append(CompareBalances(w, m, e.Tracked), CompareEntBooks(w, m, e.Tracked)...)
+		if len(bd) > 0 {
+			diverged = true
+		}
+		discs = append(discs, bd...)
 	}
 	if e.AfterTx != nil {
 		discs = append(discs, e.AfterTx(e, &obs, pre, post)...)
+	}
+	if e.Annotate != nil {
+		for i := range discs {
+			e.Annotate(e, &discs[i], &tx)
+		}
 	}
 	return obs, discs, diverged
 }
@@ -244,7 +295,11 @@ func (e *Exec) Run(a *Action, oracle bool) (StepObs, []Disc) {
 	}
 	block := func(dt time.Duration, txs []model.Tx) bool {
 		obs.Blocks++
-		d, halted := e.beginBlock(dt)
+		at := e.W.Time.Add(dt)
+		if a.NextTime != nil {
+			at = a.NextTime(e.M)
+		}
+		d, halted := e.beginBlockAt(at)
 		discs = append(discs, d...)
 		if halted {
 			obs.Halted = true
@@ -399,7 +454,7 @@ func (e *Exec) Key(timeNs bool) [32]byte {
 	}
 	wr(tb[:])
 	c := *e.M
-	c.Now = 0
+	c.Now = nil
 	wr(c.Canon())
 	ab, _ := json.Marshal(e.Aux)
 	wr(ab)
